@@ -2,6 +2,7 @@ package main
 
 import (
 	"fmt"
+	"go/token"
 	"go/types"
 	"strings"
 
@@ -194,7 +195,24 @@ func c12check(p *Prog, r *Report) {
 				continue
 			}
 		}
+		// Form D: the counter is the length of a local slice used as a set: every append is an increment
+		var incs []ssa.Instruction
 		for _, inc := range incrementsOf(a) {
+			incs = append(incs, inc)
+		}
+		var setSlice ssa.Value
+		if sl, isLen := isLenOf(a); isLen && len(incs) == 0 {
+			dependsOn(sl, func(y ssa.Value) bool {
+				if ac, ok := y.(*ssa.Call); ok {
+					if bi, isB := ac.Call.Value.(*ssa.Builtin); isB && bi.Name() == "append" && ac.Parent() == fn {
+						incs = append(incs, ac)
+						setSlice = sl
+					}
+				}
+				return false
+			})
+		}
+		for _, inc := range incs {
 			nInc++
 			qMember := p.lift(func(l Lit) bool {
 				lk, present, ok := lookupLit(l)
@@ -238,6 +256,40 @@ func c12check(p *Prog, r *Report) {
 					return depOnCall(lk.Index, canonIdent)
 				}
 				g, _ := p.allPaths(inc, []Pred{qSeen}, all(1))
+				if !g && setSlice != nil {
+					// slice used as a set: guarded by a negative answer of a local closure that
+					// compares its argument (the canonical identity) with the elements of that slice,
+					// and the element appended is that identity
+					qSeenSlice := func(l Lit) bool {
+						if l.Pos || l.Nil {
+							return false
+						}
+						c, _ := callOf(l.V)
+						if c == nil || len(c.Call.Args) != 1 || !depOnCall(c.Call.Args[0], canonIdent) {
+							return false
+						}
+						cl := c.Call.StaticCallee()
+						if cl == nil || cl.Parent() != fn || len(cl.Params) != 1 {
+							return false
+						}
+						cmp := false
+						for _, b := range cl.Blocks {
+							for _, in := range b.Instrs {
+								if bo, ok := in.(*ssa.BinOp); ok && bo.Op == token.EQL {
+									if (unwrap(bo.X) == ssa.Value(cl.Params[0])) != (unwrap(bo.Y) == ssa.Value(cl.Params[0])) {
+										cmp = true
+									}
+								}
+							}
+						}
+						return cmp
+					}
+					g2, _ := p.allPaths(inc, []Pred{qSeenSlice}, all(1))
+					if ac, isCall := inc.(*ssa.Call); g2 && isCall && len(ac.Call.Args) == 2 && depOnCall(ac.Call.Args[1], canonIdent) {
+						okD = true
+						detail = "guarded by a seen-list of canonical identities"
+					}
+				}
 				if g {
 					// the seen-set must be updated in the loop
 					upd := false
